@@ -147,6 +147,8 @@ static int mgt_load(struct module_data *m, HIO_HANDLE *f, const int start)
 			return -1;
 
 		hio_read(mod->xxi[i].name, 1, 32, f);
+		/* a 32 byte name fills the whole array: keep it terminated */
+		mod->xxi[i].name[sizeof(mod->xxi[i].name) - 1] = '\0';
 		sdata[i] = hio_read32b(f);
 		mod->xxs[i].len = hio_read32b(f);
 
@@ -355,7 +357,7 @@ static int mgt_load(struct module_data *m, HIO_HANDLE *f, const int start)
 		rows = hio_read16b(f);
 
 		/* Sanity check */
-		if (rows > 256) {
+		if (rows == 0 || rows > 256) {
 			return -1;
 		}
 
